@@ -590,9 +590,10 @@ Section PhaseA.
   Lemma dec_bits_inv fl sp ts l s d s' : df_constructed fl = false ->
     resume (dec_bits rec lf fl sp ts l false) s = inr (Ok d, s') -> tag0_simple ts = true /\ exists u, took s s' u.
   Proof.
-    intros Hc. unfold dec_bits. destruct (N.eqb l 0); [intros H; dead H|].
+    intros Hc. unfold dec_bits.
     destruct (tag0_simple ts).
-    - intros H. binv H tb s1 Htb. apply read1_inv in Htb.
+    - destruct (N.eqb l 0); [intros H; dead H|].
+      intros H. binv H tb s1 Htb. apply read1_inv in Htb.
       destruct (N.ltb 7 tb); [dead H|].
       binv H b s2 Hb. apply read_len_inv in Hb. binv H bs s3 Hbs. apply lift_inv in Hbs. destruct Hbs as [_ ->].
       apply create_inv in H. subst. split; [reflexivity|]. exists ([tb] ++ b). exact (took_trans _ _ _ _ _ Htb Hb).
@@ -2191,7 +2192,7 @@ Section NoEoo.
       destruct tagged; [|cbn [resume] in H; inversion H; subst; exact Hxn].
       apply (IH (Some x)) in H; [exact H|]. intros y Hy. inversion Hy; subst. exact Hxn. }
     destruct d0; try exact Hgo.
-    destruct cur as [x|]; [apply ne_ret; apply Hcur; reflexivity|apply ne_ret; discriminate].
+    destruct cur as [x|]; [apply ne_ret; apply Hcur; reflexivity|apply ne_raise].
   Qed.
   Lemma ne_raw_loop sp ts : forall n last, last <> DEoo -> ne (raw_loop rec sp ts n last).
   Proof.
@@ -2229,9 +2230,9 @@ Section NoEoo.
     - intros s d s' H. exact (dec_integer_not_eoo _ _ _ _ _ _ _ _ H).
     - intros s d s' H. exact (dec_integer_not_eoo _ _ _ _ _ _ _ _ H).
     - intros s d s' H. exact (dec_bool_cer_not_eoo _ _ _ _ _ _ _ H).
-    - unfold dec_bits. apply ne_if; [apply ne_collector|]. apply ne_if; [apply ne_raise|].
+    - unfold dec_bits. apply ne_if; [apply ne_collector|].
       apply ne_if.
-      + apply ne_bind. intros tb. apply ne_if; [apply ne_raise|]. apply ne_bind. intros b. apply ne_bind. intros bs. apply ne_create.
+      + apply ne_if; [apply ne_raise|]. apply ne_bind. intros tb. apply ne_if; [apply ne_raise|]. apply ne_bind. intros b. apply ne_bind. intros bs. apply ne_create.
       + apply ne_if; [apply ne_raise|]. apply ne_bind. intros p. apply ne_bits_loop.
     - unfold dec_bits_indef. apply ne_if; [apply ne_collector|]. apply ne_bits_indef_loop.
     - unfold dec_octets_indef. apply ne_octets_indef_loop.
